@@ -73,8 +73,17 @@ func validateTrustedResourceURLPrefix(prefix string) error {
 	if !safehtmlutil.IsSafeTrustedResourceURLPrefix(decoded) {
 		return fmt.Errorf("%q is a disallowed TrustedResourceURL prefix", prefix)
 	}
+	if endsWithDotPattern.MatchString(decoded) {
+		// Substitutions are only checked for ".." on their own, so a prefix ending in "." or
+		// "%2e" could be completed into a ".." dot-segment by a substitution that is just ".".
+		return fmt.Errorf("TrustedResourceURL prefix %q ends with a dot, which a substitution could complete into a \"..\" segment", prefix)
+	}
 	return nil
 }
+
+// endsWithDotPattern matches strings that end in the dot-segment character '.',
+// in its unencoded or percent-encoded form.
+var endsWithDotPattern = regexp.MustCompile(`(?:\.|%2[eE])$`)
 
 // endsWithPercentEncodingPrefixPattern matches strings that end in an incomplete
 // URL percent encoding triplet.
